@@ -17,10 +17,12 @@ BUS = 'org.freedesktop.DBus'
 BPATH = '/org/freedesktop/DBus'
 RULETEXT = {'R1': "type='signal',member='Sig1'", 'R2': "type='signal'", 'R3': "interface='org.ex.I2'",
             'R4': "type='signal',path_namespace='/sig/a'", 'R5': "type='method_call'", 'R6': "path='/org/freedesktop/DBus'",
-            'R7': "path_namespace='/'"}
+            'R7': "path_namespace='/'",
+            # two argument constraints: both must hold
+            'R8': "arg0='S3',arg1='tail'"}
 SIGS = {'S1': ('/sig/a/x', 'org.ex.I1', 'Sig1'), 'S2': ('/sig/b', 'org.ex.I2', 'Sig2'), 'S3': ('/sig/ab', 'org.ex.I1', 'Sig3')}
 # which signals each rule matches (NOC = NameOwnerChanged emitted by the bus)
-MATCH = {'R1': {'S1'}, 'R2': {'S1', 'S2', 'S3', 'NOC'}, 'R3': {'S2'}, 'R4': {'S1'}, 'R5': set(), 'R6': {'NOC'}, 'R7': {'S1', 'S2', 'S3', 'NOC'}}
+MATCH = {'R1': {'S1'}, 'R2': {'S1', 'S2', 'S3', 'NOC'}, 'R3': {'S2'}, 'R4': {'S1'}, 'R5': set(), 'R6': {'NOC'}, 'R7': {'S1', 'S2', 'S3', 'NOC'}, 'R8': {'S3'}}
 
 
 # samples of what the bus wrote, for the byte-level judgement by Message.tla (C14):
@@ -181,7 +183,7 @@ class BusDriver:
 
     def do_Emit(self, c, s):
         path, iface, member = SIGS[s]
-        ser, raw = self._raw(c, 4, [('path', path), ('interface', iface), ('member', member)], 's', [s], flags=self.serial % 4, descr=('emit', s))
+        ser, raw = self._raw(c, 4, [('path', path), ('interface', iface), ('member', member)], 'ss', [s, 'tail'], flags=self.serial % 4, descr=('emit', s))
         self.p[c].dataReceived(raw)
 
     # -- projection
